@@ -116,13 +116,21 @@ def run_case(case):
             cnt["shapes_not_expressible"] += 1
             continue
         cnt["shapes_enumerated"] += 1
+        queue = []
         for rep in range(case["reps"]):
             variant = ["consistent", "consistent", "inconsistent", "over100", "negative"][rep % 5]
             m0v = [None, "consistent", None, "inconsistent", "consistent", "negative"][(rep // 5) % 6]  # independent of the variant: all 30 combinations
             b = build(shape, rng, variant, m0v)
             if b is None:
                 continue
-            specs, M0, text = b
+            queue.append(b)
+            if b[1] is not None and b[1] > 0 and rep % 3 == 0:
+                # the very same TEXT again in the same process with another caller-supplied mass / without one: every System is judged on its own,
+                # nothing may carry over from the system built before
+                queue.append((b[0], None, b[2]))
+                queue.append((b[0], b[1] * 2.5, b[2]))
+                cnt["sibling_configurations"] += 2
+        for specs, M0, text in queue:
             verdict, data = rm.solve(specs, M0)
             if verdict == "ambiguous":
                 cnt["ambiguous_skipped"] += 1
@@ -142,7 +150,6 @@ def run_case(case):
             kinds = {s[0] if s else "none" for s in specs}
             if len(specs) >= 2 and len(kinds) >= 2:
                 nt.add(label)
-            cnt[f"combo_{variant}_{m0v}"] += 1
             if verdict == "contra":
                 cnt["contra_checked"] += 1
                 if S is not None and S.generable:
